@@ -79,12 +79,23 @@ def fork_run(fn, *args, timeout=None, **kwargs):
     return res["value"]
 
 
-def scratch_top():
-    base = "/dev/shm" if os.path.isdir("/dev/shm") and os.access("/dev/shm", os.W_OK) else \
-        os.environ.get("TMPDIR", "/var/tmp")
-    top = os.path.join(base, "bbsim")
-    os.makedirs(top, exist_ok=True)
-    return top
+def scratch_top(need_bytes=512 << 20):
+    """Scratch area of this user: tmpfs when it exists, is writable and has room,
+    otherwise TMPDIR / /var/tmp."""
+    cands = ["/dev/shm", os.environ.get("BBSIM_TMPDIR") or os.environ.get("TMPDIR") or "/var/tmp", "/var/tmp"]
+    for base in cands:
+        try:
+            if not (os.path.isdir(base) and os.access(base, os.W_OK)):
+                continue
+            st = os.statvfs(base)
+            if st.f_bavail * st.f_frsize < need_bytes:
+                continue
+            top = os.path.join(base, "bbsim-%d" % os.getuid())
+            os.makedirs(top, exist_ok=True)
+            return top
+        except OSError:
+            continue
+    raise HarnessError("no writable scratch directory with %d MB free" % (need_bytes >> 20))
 
 
 def worker_dirs(tag=None):
@@ -101,8 +112,9 @@ def cleanup_stale():
     base = scratch_top()
     import shutil
     for n in os.listdir(base):
-        if n.startswith("w") and n[1:].isdigit():
-            pid = int(n[1:])
+        digits = n[1:] if n.startswith("w") else (n[4:] if n.startswith("c19.") else "")
+        if digits.isdigit():
+            pid = int(digits)
             try:
                 os.kill(pid, 0)
             except ProcessLookupError:
